@@ -4,6 +4,17 @@ import subprocess
 
 from . import build
 
+FAKETIME = os.path.join(build.BUILD, "faketime.so")
+
+
+def ensure_faketime():
+    src = os.path.join(build.VERIF, "interpose", "faketime.c")
+    with build.Lock("aux"):
+        if not os.path.exists(FAKETIME) or os.path.getmtime(FAKETIME) < os.path.getmtime(src):
+            build.run(["gcc", "-O2", "-shared", "-fPIC", "-o", FAKETIME + ".tmp", src, "-ldl"], what="gcc faketime.so")
+            os.replace(FAKETIME + ".tmp", FAKETIME)
+    return FAKETIME
+
 
 def ensure_all():
-    pass
+    ensure_faketime()
